@@ -138,6 +138,7 @@ var ERROR_MSG []string = []string{
 	"EXPRIED",
 	"RESULT_STATE_ERROR",
 	"UNKNOWN_ERROR",
+	"LOCK_ACK_WAITING",
 }
 
 type ICommand interface {
